@@ -251,6 +251,11 @@ def rsync(
             "rsync",
             *remote_args,
             "--quiet",
+            # Always transfer: rsync's quick check would otherwise skip a
+            # destination file with the same size and mtime as the source,
+            # which is exactly what a corrupt copy we're replacing looks like
+            # (an earlier transfer preserved the mtime with --times)
+            "--ignore-times",
             "--times",
             "--protect-args",
             "--perms",
